@@ -565,8 +565,8 @@ def gen_ddl(rng, tier, tbl, known):
                     targets = set()
                     for lim in limits:
                         if lim <= 400:
-                            targets |= {lim - 1, lim, lim + 1} | ({lim + 2, lim - 3} if rng.random() < 0.3 else set())
-                    targets |= {rng.randint(0, 300) for _ in range(2)} | {rng.randint(1, 20)}
+                            targets |= {lim, lim + 1} | ({lim + 2, lim - 1, lim - 3} if rng.random() < 0.3 else set())
+                    targets |= {rng.randint(0, 300), rng.randint(1, 20)}
                     if rng.random() < 0.25:
                         targets.add(300)
                     targets = sorted(t for t in targets if t >= 0)
@@ -592,7 +592,7 @@ ANON_BODIES = ["a", "a_1", "ab", "aaaa", "aaaaaaaa", "a" * 30]
 
 def gen_lowlevel(rng, tier):
     cases = []
-    n = 6000 if tier == "thorough" else 700
+    n = 6000 if tier == "thorough" else 500
     for i in range(n):
         ll = rng.choice([None, 0, -2, 1, 2, 3, 4, 5, 6, 7, 8, 9, 10, 11, 12, 14, 20, 30])
         maxid = rng.choice([9999, 30, 12])
@@ -622,8 +622,8 @@ STMT_DIALECTS = [0, 1, 2, 3, 4]
 
 def gen_stmt(rng, tier, tbl, known):
     cases = []
-    nsmall = 4000 if tier == "thorough" else 600
-    nlarge = 120 if tier == "thorough" else 18
+    nsmall = 4000 if tier == "thorough" else 450
+    nlarge = 120 if tier == "thorough" else 12
     for i in range(nsmall + nlarge):
         large = i >= nsmall
         did = rng.choice(STMT_DIALECTS)
@@ -982,6 +982,8 @@ def oracle(c, obs):
         if len(name) > mx:
             return "rendered %s name has %d characters, the dialect's limit is %d" % (
                 "index" if cin[2] else "constraint", len(name), mx)
+        if len(name) > d[0]:
+            return "rendered name has %d characters, max_identifier_length is %d" % (len(name), d[0])
         return None
     if cin[0] == 1:
         _, ll, maxid, ctrs, reqs = cin
